@@ -15,6 +15,38 @@ def mirrored(F, self_ty):
     return [im for im in F.impls if '#[unimock]' in im.get('macros', []) and im.get('trait') and not im.get('trait_local') and im['self_ty'] == self_ty]
 
 
+def supertrait_forwarders(chk, F, rule, cfg, floor=2):
+    """hand-written impls of upstream traits for the delegation helper (supertraits of mirrored traits, e.g. Display / Debug for
+    `Error`): each method forwards to the wrapped mock's own impl of the *same* trait's *same* method with the arguments in order and
+    returns its result - a default body that formats `self` is then evaluated against the patterns of the trait it actually used"""
+    hand = [im for im in F.impls if im.get('self_ty') == 'default_impl_delegator::DefaultImplDelegator' and im.get('trait') and not im.get('trait_local')
+            and '#[unimock]' not in im.get('macros', []) and not re.search(r'^core::(convert::As(Ref|Mut)|clone::Clone|marker::|ops::Drop)', im['trait'])]
+    n = 0
+    for im in hand:
+        trait = im['trait']
+        tname = trait.rsplit('::', 1)[-1]
+        for it in im['items']:
+            fn = F.fns.get(it['def'])
+            if fn is None or not it['is_fn']:
+                continue
+            n += 1
+            for p in symex.Interp(F).run(fn):
+                fw = [e for e in p.calls() if (e.term.get('callee', {}).get('resolved') or {}).get('impl_self_ty') == 'Unimock' and e.term['callee'].get('name') == it['name'] and
+                      (e.term['callee'].get('trait') == trait or ('<Unimock as %s>' % trait) in (e.term['callee'].get('resolved') or {}).get('def', ''))]
+                ok = len(fw) == 1 and p.outcome[0] == 'return' and strip(p.outcome[1])[0] == 'call' and strip(p.outcome[1])[3] == fw[0].data[3]
+                order = []
+                if fw:
+                    for a in fw[0].data[2][1:]:
+                        order.append(param_index_of(F, fn, fn, a))
+                    ok = ok and order == list(range(2, fn.arg_count + 1))
+                    recv = fw[0].data[2][0]
+                    ok = ok and mentions(recv, lambda x: x == ('param', 0, 1) or (x[0] == 'ref' and x[1][0] == ('ptr', ('param', 0, 1))))
+                chk.ob(rule, 'helper %s::%s forwards to the mock\'s own %s::%s with the same arguments' % (tname, it['name'], tname, it['name']), ok, config=cfg, fn=fn, site='forward:%s::%s' % (tname, it['name']),
+                       what='helper %s::%s forwards %s' % (tname, it['name'], [e.data[1] for e in p.calls()]), found={'calls': [e.data[1] for e in p.calls()], 'order': order}, expected='<Unimock as %s>::%s(&self.unimock, ..)' % (trait, it['name']))
+    if floor:
+        chk.floor(rule, 'hand-written supertrait forwarders of the helper', n, floor, config=cfg)
+
+
 def fn_of_impl(F, im, name):
     for it in im['items']:
         if it['name'] == name and it['is_fn']:
@@ -183,6 +215,11 @@ def run(chk, tier):
                     ok = ok and mentions(recv, lambda x: x == ('param', 0, 1) or (x[0] == 'ref' and x[1][0] == ('ptr', ('param', 0, 1))))
                 chk.ob('R20.2', 'helper %s::%s forwards to Unimock\'s own %s with the same arguments' % (tname, it['name'], it['name']), ok, config=cfg, fn=fn, site='forward', what='helper %s::%s forwards %s' % (tname, it['name'], order),
                        found={'calls': [e.data[1] for e in p.calls()], 'order': order})
+    supertrait_forwarders(chk, F, 'R20.2.super', cfg)
+    # R20.3.helper the step every unmocked provided method takes to reach the upstream default body: the helper for each receiver kind
+    # (shared with C15: cached per instance, built from a clone of this mock, a filled cache is used and never a reason to panic)
+    from props import c15
+    c15.delegator_runtime(chk, F, 'R20.3.helper', cfg)
     have = set(im['trait'] for im in dele)
     for im in uni:
         needs = bool(set(it['name'] for it in im['items'] if it['is_fn']) & set(im['trait_provided']))
